@@ -81,6 +81,30 @@ Proof.
   apply Hsk; auto. split; [exact H1|]. split; [exact H2|exact H3].
 Qed.
 
+(* DYNAMIC SYNTAX.  A directive fence / colon fence / role / substitution / front-matter token whose run the
+   oracle answers with the nodes ns: the document that consists of this token is the image of ns - the nodes of
+   the run, once, in order, nothing else - and no node object occurs twice. *)
+Lemma skel_tok_dyn D B C OR t key :
+  dyn_key C OR t = DKey key -> exists img, skel_tok D B C OR t = dyn_skel D B C OR t img.
+Proof.
+  intro H. destruct t as [ty0 tg0 at0 co0 mk0 in0 me0 mp0 cs0]. unfold dyn_key in H. cbn [ty] in H.
+  cbn [skel_tok]. destruct (kind_of ty0); try discriminate H; eexists; reflexivity.
+Qed.
+
+Theorem dynamic_spliced_once : forall (D : str -> str) B C OR (t : tok) key ns ws doc wsd,
+  O_lexer_concat OR -> O_canon D OR -> O_no_files OR ->
+  dyn_key C OR t = DKey key -> o_dyn OR (dyn_full_key B key) = Some (ns, ws) ->
+  static_forest B C OR [t] = true ->
+  render_doc B C OR [t] = Good (doc, wsd) -> has_dropped doc = false ->
+  skel_node D doc = skel_nodes D ns /\ NoDup (oids doc).
+Proof.
+  intros D B C OR t key ns ws doc wsd H1 H2 H3 Hk Ho Hst Hr Hd.
+  destruct (doc_obs D B C OR [t] doc wsd Hst Hr) as [Hn _]. split; [|exact Hn].
+  rewrite (faithful D B C OR [t] doc wsd H1 H2 H3 Hst Hr Hd).
+  unfold skel_toks. cbn [flat_map]. rewrite app_nil_r.
+  destruct (skel_tok_dyn D B C OR t key Hk) as [img ->]. unfold dyn_skel. rewrite Hk, Ho. reflexivity.
+Qed.
+
 (* erasing what is specific to one back end from a skeleton: how a code block carries its language, and
    target nodes (Sphinx puts one in front of labelled / numbered equations) *)
 Fixpoint erase_backend (s : skel) : list skel :=
